@@ -5,6 +5,7 @@
   effect when it was written), and the fixed fields are those given.
 -/
 import QV.Proofs.WriterShapeRun
+import QV.Proofs.WriterRdPos
 
 namespace QV.Writer
 open QV QV.Wire QV.Spec QV.ServerSafety
@@ -29,7 +30,9 @@ def QFacts (s : State) (it : QItC) : Prop :=
 def RFacts (s : State) (it : RItC) : Prop :=
   Item s it.a it.k ∧ NameIs s it.a it.m it.r.owner ∧
   BytesAt s.octets (it.a + it.k) (u16be it.r.ty ++ u16be it.r.cls ++ u32be it.r.ttl) ∧
-  be16 s.octets (it.a + it.k + 8) = it.rdlen
+  be16 s.octets (it.a + it.k + 8) = it.rdlen ∧
+  ∃ ts, componentTypes it.r.cls it.r.ty = some ts ∧
+    RdAt s it.m ts it.r.rdata (it.a + it.k + 10) (it.a + it.k + 10 + it.rdlen)
 
 def QChainC (s : State) : List QItC → Nat → Nat → Prop
   | [], p, e => p = e
@@ -63,7 +66,7 @@ theorem qchainC_move {s s' : State} {e lo : Nat}
     exact ⟨h1, hit x (by omega) (qchainC_le h3) h2, ih (by omega) h3⟩
 
 theorem rchainC_move {s s' : State} {e lo : Nat}
-    (hit : ∀ it : RItC, lo ≤ it.a → it.a + it.k + 10 ≤ e → RFacts s it → RFacts s' it) :
+    (hit : ∀ it : RItC, lo ≤ it.a → it.a + it.k + 10 + it.rdlen ≤ e → RFacts s it → RFacts s' it) :
     ∀ {rs : List RItC} {p : Nat}, lo ≤ p → RChainC s rs p e → RChainC s' rs p e := by
   intro rs
   induction rs with
@@ -102,12 +105,13 @@ theorem qfacts_frame {s s' : State} {it : QItC} {lo : Nat} (h : QFacts s it) (hl
   omega
 
 theorem rfacts_frame {s s' : State} {it : RItC} {lo : Nat} (h : RFacts s it) (hlo : lo ≤ it.a)
-    (hend : it.a + it.k + 10 ≤ s.cursor) (hg12 : ∀ g ∈ s.gLabels, lo ≤ g)
+    (hend : it.a + it.k + 10 + it.rdlen ≤ s.cursor) (hg12 : ∀ g ∈ s.gLabels, lo ≤ g)
     (hpre : ∀ i, lo ≤ i → i < s.cursor → s'.octets[i]? = s.octets[i]?) (hc : s.cursor ≤ s'.cursor)
     (hg : ∀ g ∈ s.gLabels, g ∈ s'.gLabels) : RFacts s' it := by
-  obtain ⟨h1, h2, h3, h4⟩ := h
+  obtain ⟨h1, h2, h3, h4, ts, hct, h5⟩ := h
   refine ⟨item_move (lo := lo) h1 hg12 (fun i a b => hpre i a (by have := h1.2.2; omega)) (by have := h1.2.2; omega)
-    (fun g hgm _ => hg g hgm), nameIs_frame h2 hg12 hpre hc hg, ?_, ?_⟩
+    (fun g hgm _ => hg g hgm), nameIs_frame h2 hg12 hpre hc hg, ?_, ?_,
+    ts, hct, rdAt_frame h5 (by omega) hend hg12 hpre hc hg⟩
   · refine bytesAt_frame h3 (fun i a b => hpre i (by omega) ?_)
     have : (u16be it.r.ty ++ u16be it.r.cls ++ u32be it.r.ttl).length = 8 := rfl
     omega
@@ -121,8 +125,9 @@ theorem qfacts_fields {s s' : State} {it : QItC} (h : QFacts s it) (ho : s'.octe
 
 theorem rfacts_fields {s s' : State} {it : RItC} (h : RFacts s it) (ho : s'.octets = s.octets)
     (hc : s'.cursor = s.cursor) (hg : s'.gLabels = s.gLabels) : RFacts s' it := by
-  obtain ⟨h1, h2, h3, h4⟩ := h
-  exact ⟨item_fields h1 ho hc hg, nameIs_fields h2 ho hc hg, by rw [ho]; exact h3, by rw [ho]; exact h4⟩
+  obtain ⟨h1, h2, h3, h4, ts, hct, h5⟩ := h
+  exact ⟨item_fields h1 ho hc hg, nameIs_fields h2 ho hc hg, by rw [ho]; exact h3, by rw [ho]; exact h4,
+    ts, hct, rdAt_fields h5 ho hc hg⟩
 
 theorem qchainC_ext {s s' : State} (e : Ext s s') {qs : List QItC} {p f : Nat} (hf : f ≤ s.cursor)
     (h : QChainC s qs p f) : QChainC s' qs p f :=
@@ -288,16 +293,20 @@ theorem clay_add_records {s s0 s1 s' : State} {b : Body} {sec : RrSection} {recs
 
 /-! ### records -/
 
-theorem rchainC_one {s s' : State} {k : Nat} {m : CMode} {r : RRec} (hit : Item s' s.cursor k)
+theorem rchainC_one {s s' : State} {k : Nat} {m : CMode} {r : RRec} {ts : List CompType} (hit : Item s' s.cursor k)
     (hnm : NameIs s' s.cursor m r.owner)
     (hf : BytesAt s'.octets (s.cursor + k) (u16be r.ty ++ u16be r.cls ++ u32be r.ttl))
     (hlen : s.cursor + k + 10 ≤ s'.cursor)
     (hb : be16 s'.octets (s.cursor + k + 8) = (s'.cursor - (s.cursor + k + 10)) % 65536)
-    (hle : s'.cursor ≤ 65535) :
+    (hle : s'.cursor ≤ 65535) (hct : componentTypes r.cls r.ty = some ts)
+    (hrd : RdAt s' m ts r.rdata (s.cursor + k + 10) s'.cursor) :
     RChainC s' [⟨s.cursor, k, s'.cursor - (s.cursor + k + 10), m, r⟩] s.cursor s'.cursor := by
-  refine ⟨rfl, ⟨hit, hnm, hf, ?_⟩, ?_⟩
+  refine ⟨rfl, ⟨hit, hnm, hf, ?_, ts, hct, ?_⟩, ?_⟩
   · show be16 s'.octets (s.cursor + k + 8) = _
     rw [hb, Nat.mod_eq_of_lt (by omega)]
+  · show RdAt s' m ts r.rdata (s.cursor + k + 10) (s.cursor + k + 10 + (s'.cursor - (s.cursor + k + 10)))
+    rw [show s.cursor + k + 10 + (s'.cursor - (s.cursor + k + 10)) = s'.cursor by omega]
+    exact hrd
   · show s.cursor + k + 10 + (s'.cursor - (s.cursor + k + 10)) = s'.cursor
     omega
 
@@ -308,14 +317,22 @@ theorem bytesAt_three {o : Bytes} {p : Nat} {a b c : List UInt8} (h1 : BytesAt o
 
 /-- one record, with content -/
 theorem addRr_itemC (hint : Hint) (owner : WName) (ty cls ttl : Nat) (rd : List UInt8) (s s' : State)
-    (hw : WInv s) (hwf : owner.WF) (hh : HintOK s hint owner)
+    (hw : WInv s) (hl : PtrLogOK s) (hwf : owner.WF) (hh : HintOK s hint owner)
     (h : addRr hint owner ty cls ttl rd s = (.ok (), s')) (hle : s'.cursor ≤ 65535) :
     ∃ it : RItC, RChainC s' [it] s.cursor s'.cursor ∧ it.r = ⟨owner, ty, cls, ttl, rd⟩ ∧ it.m = s.mode := by
-  obtain ⟨k, hit, hlen, hb, ⟨t1, t2, t3⟩, _, hnm⟩ := addRr_item hint owner ty cls ttl rd s s' hw hwf hh h
+  obtain ⟨k, hit, hlen, hb, ⟨t1, t2, t3⟩, ⟨p, sB, hwn, hcB, _⟩, hnm⟩ :=
+    addRr_item hint owner ty cls ttl rd s s' hw hwf hh h
+  obtain ⟨ts, k', hct, hrd, p', sB', hwn', hcB'⟩ := addRr_rd hint owner ty cls ttl rd s s' hw hl hwf hh h
+  have hk : k' = k := by
+    rw [hwn] at hwn'
+    simp only [Prod.mk.injEq, Out.ok.injEq] at hwn'
+    rw [← hwn'.2, hcB] at hcB'
+    omega
+  subst hk
   have hl2 : ∀ x, (u16be x).length = 2 := fun _ => rfl
-  refine ⟨⟨s.cursor, k, s'.cursor - (s.cursor + k + 10), s.mode, ⟨owner, ty, cls, ttl, rd⟩⟩, ?_, rfl, rfl⟩
+  refine ⟨⟨s.cursor, k', s'.cursor - (s.cursor + k' + 10), s.mode, ⟨owner, ty, cls, ttl, rd⟩⟩, ?_, rfl, rfl⟩
   exact rchainC_one (r := ⟨owner, ty, cls, ttl, rd⟩) hit hnm
-    (bytesAt_three t1 (by rw [hl2]; exact t2) (by rw [hl2, hl2]; exact t3)) hlen hb hle
+    (bytesAt_three t1 (by rw [hl2]; exact t2) (by rw [hl2, hl2]; exact t3)) hlen hb hle hct hrd
 
 /-- **`add_*_rr` keeps the layout**, and the record is the one given -/
 theorem clay_addRrOp (sec : RrSection) (hint : Hint) (owner : WName) (ty cls ttl : Nat) (rd : List UInt8)
@@ -340,7 +357,9 @@ theorem clay_addRrOp (sec : RrSection) (hint : Hint) (owner : WName) (ty cls ttl
   refine clay_add_records (recs := [⟨owner, ty, cls, ttlFrom ttl, rd⟩]) h h1 (Ext.trans hfr1 e2) ?_ hs' hsect
     hI.inv.rr_hi
   intro hle
-  obtain ⟨it, hch, hr, _⟩ := addRr_itemC hint owner ty cls (ttlFrom ttl) rd s1 s2 w1 hwf hh1 h2 hle
+  have hl1 : PtrLogOK s1 := ptrLog_ext hI.log hfr1 (by
+    have := changeSection_gPtrs sec s; rw [h1] at this; exact this)
+  obtain ⟨it, hch, hr, _⟩ := addRr_itemC hint owner ty cls (ttlFrom ttl) rd s1 s2 w1 hl1 hwf hh1 h2 hle
   rw [c6] at hch
   exact ⟨[it], hch, by simp [hr]⟩
 
@@ -370,7 +389,7 @@ theorem addRrset_itemsC {track : Prop} {s0 : State} (owner : WName) (ty cls ttl 
       have := frame_addRrset .mostRecentOwner owner ty cls ttl rds (n + 1) s1
       rw [h2] at this; exact this
     have hle1 : s1.cursor ≤ 65535 := by have := e2.cur; omega
-    obtain ⟨it, hch1, hr1, _⟩ := addRr_itemC hint owner ty cls ttl rd s s1 hrec.winv hwf hh h1 hle1
+    obtain ⟨it, hch1, hr1, _⟩ := addRr_itemC hint owner ty cls ttl rd s s1 hrec.winv hrec.log hwf hh h1 hle1
     obtain ⟨its, hch, hl⟩ := ih .mostRecentOwner (n + 1) (names ++ rdataNames cls ty rd) (some owner) s1 s' cnt
       ⟨_, p, hrec1, recSt_ownerHint hrec1⟩ h2 hle
     exact ⟨it :: its, rchainC_append (rchainC_ext e2 (Nat.le_refl _) hch1) hch, by simp [hr1, hl]⟩
